@@ -46,7 +46,19 @@ def zero_split(prog, R, fn):
             return False
         a = origins(prog, fn, o.data["args"][0], at=o.block)
         return bool(a) and all(is_call_to(prog, fn, x, ext) for x in a)
-    return find_bool_split(prog, fn, pred)
+    hits = find_bool_split(prog, fn, pred)
+    if hits:
+        return hits
+    # the same test spelled as a comparison with zero:  length.as_value() == 0  /  != 0  /  0 == length
+    from . import k7
+    out = []
+    for (sb, t_true, t_false, (op, X, Y)) in k7.conditions(prog, fn):
+        if op not in ("Eq", "Ne") or Y is None:
+            continue
+        for a, z in ((X, Y), (Y, X)):
+            if z == ("c", 0) and a[0] == "call" and a[1] == ext.id:
+                out.append({"block": sb, "cond": [], "true": t_true if op == "Eq" else t_false, "false": t_false if op == "Eq" else t_true})
+    return out
 
 
 def check(ctx):
